@@ -52,9 +52,11 @@ def main():
         only = sys.argv[sys.argv.index('--only') + 1].split(',')
     props = built_props()
     jobs = []
-    for patch in sorted(glob.glob(os.path.join(root, '*', '*', 'patch.diff'))):
+    for patch in sorted(glob.glob(os.path.join(root, '*', '*', 'patch.diff')) + glob.glob(os.path.join(root, '*', 'patch.diff'))):
         parts = patch.split(os.sep)
         grp, n = parts[-3], parts[-2]
+        if os.path.dirname(os.path.dirname(patch)) == os.path.abspath(root).rstrip(os.sep) or parts[-3] == os.path.basename(os.path.abspath(root)):
+            grp, n = parts[-2].rsplit('-', 1) if '-' in parts[-2] else (parts[-2], '')
         if only and grp not in only and f'{grp}/{n}' not in only:
             continue
         summary = ''
